@@ -1333,9 +1333,17 @@ func (w *world) session(sim *simrt.Sim, first bool) {
 			cwg.Add(1)
 			sim.GoNamed(fmt.Sprintf("client%d", ci), "client", func() {
 				defer cwg.Done()
+				late := false
 				for _, op := range p.Clients[ci] {
-					if len(w.out.Viol) > 0 || (w.stopping && !simrt.Listening(w.listen)) {
+					if len(w.out.Viol) > 0 {
 						return
+					}
+					if w.stopping && !simrt.Listening(w.listen) {
+						// the listener is closed; the connection this client holds may still carry one request (see simrt.Deliver)
+						if late || op.K == "sleep" || op.K == "gcprobe" || op.K == "manysessions" || op.K == "flood" {
+							return
+						}
+						late = true
 					}
 					if ci == 0 {
 						w.ownerOp(op)
